@@ -81,7 +81,10 @@ func (g *genCfg) fieldVal(r *rand.Rand) string {
 func (g *genCfg) geoJSON(r *rand.Rand) string {
 	lon := func() string { return g.lon(r) }
 	lat := func() string { return g.lat(r) }
-	switch r.Intn(5) {
+	switch r.Intn(6) {
+	case 5:
+		// an empty geometry: stored and counted, but it has no extent and is in no spatial index
+		return []string{`{"type":"FeatureCollection","features":[]}`, `{"type":"GeometryCollection","geometries":[]}`}[r.Intn(2)]
 	case 0:
 		return fmt.Sprintf(`{"type":"Point","coordinates":[%s,%s]}`, lon(), lat())
 	case 1:
